@@ -194,14 +194,14 @@ def _dispatch(job):
         try:
             return scale_job(job)
         except Exception as ex:
-            return [{"kind": "band", "lo": 30, "hi": 300, "nfield": -1, "ant": [-1], "noise": [-1],
+            return [{"kind": "band", "lo": 30, "hi": 300, "nfield": -1, "ant": [-1], "noise": [-1], "snrOk": False,
                      "_m": {"error": "radio scaling job raised: " + repr(ex)[:300]}}]
     if job["t"] == "band":
         return band_job(job)
     try:
         return shower_job(job)
     except Exception as ex:        # the chain raised on a legal batch: reported as a failing band event of the configured band
-        return [{"kind": "band", "lo": 30, "hi": 300, "nfield": -1, "ant": [-1], "noise": [-1],
+        return [{"kind": "band", "lo": 30, "hi": 300, "nfield": -1, "ant": [-1], "noise": [-1], "snrOk": False,
                  "_m": {"spec": job["spec"], "error": "radio chain raised on a pipeline-generated batch: " + repr(ex)[:200]}}]
 
 
